@@ -75,6 +75,10 @@ chk("C14",
     "Bounded-exhaustive exploration of callee interfaces x call sites through the real Linter: every spec of the bundled popular-actions table (enumerated completely; the table itself is the declaration) x {no inputs, exactly the required, all, required minus each one, one extra, re-cased keys} with references to every declared and one undeclared output; all 125 local action interfaces over 3 inputs in {absent, optional, required, required+default, optional+default} x 0-2 outputs x every subset of declared inputs, one extra, re-cased; all 169 reusable-workflow input interfaces over 2 inputs (absent | type x required x default) x 3 secret sets x 0-1 outputs x call sites (none, required, all re-cased, extra input, extra secret, secrets: inherit, required minus each), with the interface derived from the callee's file and from its AST (callee linted first in the same run under the default controlled schedule); 3 declared types x 12 literal / expression values; oracle = set arithmetic on the declared interface and the documented assignability table.",
     "Interfaces beyond 3 action inputs / 2 workflow inputs are not generated; the bundled table's content is taken as given." + OVERLAY_NOTE,
     "complete enumeration of the bundled table and of all small interfaces x call sites vs set-arithmetic reference")
+chk("C15",
+    "Complete enumeration of the product 3 workflows (0/2/4 diagnostics with distinct messages) x 8 -ignore pattern sets x 4 `paths` globs x 4 config ignore sets x 4 working directories (repository root, parent, nested, unrelated) x 3 path spellings (relative, ./relative, absolute) = 4608 runs of the real Command.Main, each compared with a reference filter: the unfiltered list minus diagnostics whose message matches a CLI pattern or a config pattern of an entry whose glob matches the root-relative path (match bits are part of the scenario table), in unchanged order, exit status 1 iff something remains; plus exit-status rows (invalid flag 2; unreadable file, broken config YAML / regexp / glob, bad -ignore regexp, missing -config-file 3).",
+    "Three fixed workflows and four globs; working directory is process-global, so cases run sequentially inside each worker process." + OVERLAY_NOTE,
+    "complete enumeration of a finite configuration product vs reference filter")
 chk("C16",
     "Bounded-exhaustive exploration of (echo site x hostile payload x output mode): every value and key position of 4 clean seeds and a noisy seed whose diagnostics echo object types, names and user strings x 12 payloads (LF, CR, control, ESC, NEL, LS, tab, non-ASCII, ' [b]', 'x:1:2: y', format verbs) in 1-5 embeddings (whole scalar, appended, string literal, fromJSON key, identifier); each resulting diagnostic list rendered by the real Linter in default, -oneline, coloured -oneline, {{json .}} and a custom template and parsed back: header line count, shipped problem-matcher regexp (JavaScript '.' semantics) -> same file/line/column/message/kind, JSON round trip, snippet = referenced line; plus PrettyPrint/GetTemplateFields over all sources of length <=4 (thorough 5) over {a, space, tab, LF, é, あ} x line -1..4 x column -1..7 against a reference (no panic, header, referenced line, caret column).",
     "Echo sites are those reachable from the seeds' positions; the matcher regexp is evaluated by Go's regexp package after narrowing '.' to JavaScript's meaning; caret placement is not compared when the prefix contains a tab or the column splits a multi-byte character." + OVERLAY_NOTE,
